@@ -577,6 +577,33 @@ def phase_diagrams(run, repo):
         if not isinstance(pd, Obj):
             continue
         scan_2d(run, I, ci, pd, rx, vals, nx, nx2, n1, n2, units2, label, key=', grid of ten and more values')
+    # the documented attribute norm_factors given other values (as many as before) between two requests: the second
+    # request is normalised by the factors the diagram shows at that moment - a converted copy remembered from the
+    # first request (refreshed only when the number of reactions changes) answers with the old ones
+    from .rxnfix import set_public
+    for nr, kind, kind2, r1, r2 in ((2, 'list', 'list', rq('1D', 'T', fixed={'P': 'p0'}, g='a'),
+                                     rq('1D', 'T', u='kJ/mol', fixed={'P': 'p0'}, g='b')),
+                                    (3, 'array', 'array', rq('2D', 'T', 'P', fixed={}, g='c'),
+                                     rq('1D', 'P', fixed={'T': 'T1'}, g='d')),
+                                    (2, 'default', 'list', rq('1D', 'P', u='eV', fixed={'T': 'T1'}, g='e'),
+                                     rq('2D', 'P', 'T', u='eV', fixed={}, g='f'))):
+        I = new_interp(repo)
+        pd, rx, vals, given = make_diagram(I, ci, nr, kind)
+        n += 1
+        if not isinstance(pd, Obj):
+            continue            # reported above
+        base = 'reactions=%d factors=%s, then norm_factors assigned %d other values (%s)' % (nr, kind, nr, kind2)
+        done = []
+        request(run, I, ci, pd, rx, vals, r1, 0, base, done, array=False, key=', factors assigned between requests')
+        fresh = ListV([I.D.sym('nfZ%d' % i) for i in range(nr)])
+        if kind2 == 'array':
+            fresh.is_array = True
+            fresh.dtype = 'float'
+        vals2 = list(fresh.items)
+        set_public(I, pd, 'norm_factors', fresh)
+        done.append('norm_factors = %s' % show(fresh, 60))
+        request(run, I, ci, pd, rx, vals2, r2, 1, base, done, array=False, key=', factors assigned between requests')
+        factors_kept(run, I, ci, pd, vals2, fresh, base, 'after the second request')
     return n
 
 
